@@ -1,6 +1,7 @@
 import BasicModel.Lemmas.LexList
 import BasicModel.Lemmas.LexPost
 import BasicModel.Lemmas.LexStable
+import BasicModel.Lemmas.LexTrail
 /-
   C05 — listing is faithful (lexer part): `Line::new(s).to_string()` re-lexes to the same line.
 
@@ -268,8 +269,7 @@ example : (10 : Nat) ≤ 65529 ∧ (lex "65530 X".toList).1 = none :=
 
 /-- `relist` is idempotent, and the listed text lexes to the same line, for every source line whose
     first listing is canonical.  PARTIAL: it does not cover the strings whose token list is not
-    `Canon` (unknown tokens, glued remark text, the numerals of `number_not_faithful`, adjacent
-    comparison operators); the three counter-examples below show that the restriction is needed. -/
+    `Canon` (unknown tokens, glued remark text, adjacent comparison operators); the three counter-examples below show that the restriction is needed. -/
 theorem relist_idempotent_partial (s : Str) (h : Canon (lex s).2)
     (h0 : (lex s).1 = none → StartsPlain (printTokens (lex s).2)) :
     lex (relist s) = lex s ∧ relist (relist s) = relist s := by
@@ -329,21 +329,37 @@ theorem string_payload_open (s : List Char) (h : '"' ∉ s) :
 
 example : relist "?\"abc".toList = "PRINT \"abc\"".toList := by decide +kernel
 
-/-- remark text after `'` is kept verbatim except for trailing blanks -/
+/-- the post-passes on a remark line -/
+theorem postPasses_remark (w : Word) (hw : w = .rem1 ∨ w = .rem2) (s : List Char) :
+    postPasses [.word w, .unknown s] =
+      if (trimEndStr s).isEmpty then [.word w] else [.word w, .unknown (trimEndStr s)] := by
+  have h1 : trimEnd [.word w, .unknown s] =
+      if (trimEndStr s).isEmpty then [.word w] else [.word w, .unknown (trimEndStr s)] := by
+    simp [trimEnd]
+  rw [postPasses, h1]
+  split <;> rcases hw with h | h <;> subst h <;>
+    simp [collapseTriples, tripleLocs, tripleMatch, collapseDoubles, doubleLocs,
+      doubleMatch, separateWords, wordLocs, applyLocs, Token.isWord]
+
+example : postPasses [.word .rem2, .unknown "x  ".toList] = [.word .rem2, .unknown ['x']] := by decide
+
+/-- remark text after `'` is kept verbatim except for trailing white space (a remark of nothing but
+    white space disappears) -/
 theorem remark_preserved_apostrophe (s : List Char) (h : s ≠ []) :
-    lex ('\'' :: s) = (none, [.word .rem2, .unknown (trimEndStr s)]) := by
+    lex ('\'' :: s) =
+      (none, if (trimEndStr s).isEmpty then [.word .rem2] else [.word .rem2, .unknown (trimEndStr s)]) := by
   rw [lex_plain '\'' s (by decide) (by decide), lexFrom_minutia '\'' s _ rfl,
-    show ((Token.word Word.rem2 == Token.word Word.rem2)) = true from by decide, lexFrom_remark s h]
-  simp [postPasses, trimEnd, collapseTriples, tripleLocs, tripleMatch, collapseDoubles, doubleLocs,
-    doubleMatch, separateWords, wordLocs, applyLocs, Token.isWord]
+    show ((Token.word Word.rem2 == Token.word Word.rem2)) = true from by decide, lexFrom_remark s h,
+    postPasses_remark _ (Or.inr rfl)]
 
 example : lex "' Keep  THIS  ".toList = (none, [.word .rem2, .unknown " Keep  THIS".toList]) := by
   decide +kernel
 
-/-- remark text after `REM` is kept verbatim except for trailing blanks, provided it does not
+/-- remark text after `REM` is kept verbatim except for trailing white space, provided it does not
     start with a letter, a digit or a type suffix (it normally starts with a blank) -/
 theorem remark_preserved_REM (s : List Char) (h : s ≠ []) (hb : AlphaBoundary s) :
-    lex ("REM".toList ++ s) = (none, [.word .rem1, .unknown (trimEndStr s)]) := by
+    lex ("REM".toList ++ s) =
+      (none, if (trimEndStr s).isEmpty then [.word .rem1] else [.word .rem1, .unknown (trimEndStr s)]) := by
   have hk := lexFrom_keyword ("REM".toList, .word .rem1) (by decide) s hb
   rw [show (("REM".toList, Token.word Word.rem1).2 == Token.word Word.rem1) = true from by decide,
     lexFrom_remark s h] at hk
@@ -351,12 +367,35 @@ theorem remark_preserved_REM (s : List Char) (h : s ≠ []) (hb : AlphaBoundary 
     rw [show "REM".toList = ['R', 'E', 'M'] from by decide]; rfl
   simp only at hk
   rw [e] at hk ⊢
-  rw [lex_plain 'R' _ (by decide) (by decide), hk]
-  simp [postPasses, trimEnd, collapseTriples, tripleLocs, tripleMatch, collapseDoubles, doubleLocs,
-    doubleMatch, separateWords, wordLocs, applyLocs, Token.isWord]
+  rw [lex_plain 'R' _ (by decide) (by decide), hk, postPasses_remark _ (Or.inl rfl)]
 
 example : lex "REM Keep  this ".toList = (none, [.word .rem1, .unknown " Keep  this".toList]) := by
   decide +kernel
+
+/-! ### trailing carriage return and the like -/
+
+/-- a run of white space that is not blank/tab is one `Unknown` token, and `trim_end` removes it
+    without a trace (unless that uncovers another `Unknown` token) -/
+theorem trailing_white_trimmed (l : List Token) (w : List Char) (hw : ∀ c ∈ w, isOddWhite c = true)
+    (h : ∀ x ∈ l, ∀ s, x ≠ .unknown s) : trimEnd (l ++ [.unknown w]) = trimEnd l :=
+  trimEnd_trailing_white l w hw h
+
+example : trimEnd [.word .print, .whitespace 1, .unknown ['\r']] = [.word .print] := by decide
+
+/-- a canonical line followed by a carriage return (no-break space, …) lexes to the same line as
+    without it.  (Former finding: the empty `Unknown` token used to stay behind.) -/
+theorem trailing_white_ignored (ts : List Token) (w : List Char) (hw : ∀ c ∈ w, isOddWhite c = true)
+    (hne : w ≠ []) (h : CanonRawT w ts) (h' : CanonRawT [] ts)
+    (c : Char) (cs : List Char) (e : printTokens ts = c :: cs) (hd : isDigit c = false)
+    (hws : isWs c = false) : lex (printTokens ts ++ w) = lex (printTokens ts) :=
+  lex_trailing_white ts w hw hne h h' c cs e hd hws
+
+example : lex ['?', Char.ofNat 0xA0] = lex ['?'] ∧ lex "CLS\r".toList = lex "CLS".toList := by
+  refine ⟨by decide +kernel, ?_⟩
+  exact trailing_white_ignored [.word .cls] ['\r'] (by decide) (by decide)
+    ⟨by decide, by decide, trivial, (by show AlphaBoundary _; decide), trivial⟩
+    ⟨by decide, by decide, trivial, (by show AlphaBoundary _; decide), trivial⟩
+    'C' "LS".toList (by decide) (by decide) (by decide)
 
 /-! ### where listing is NOT faithful in the code that exists (negations proved on the model) -/
 
@@ -364,22 +403,20 @@ example : lex "REM Keep  this ".toList = (none, [.word .rem1, .unknown " Keep  t
 theorem remark_glued_to_REM :
     relist "10 REMark this".toList = "10 REM ARK this".toList := by decide +kernel
 
-/-- a numeral with a second, lower-case exponent letter is one literal, but its listing is a
-    literal and a name: `?1E0e` and its own listing lex differently -/
-theorem number_not_faithful :
-    relist "?1E0e".toList = "PRINT 1E0E".toList ∧
-    (lex "?1E0e".toList).2 = [.word .print, .whitespace 1, .literal (.single "1E0E".toList)] ∧
-    (lex (relist "?1E0e".toList)).2 =
-      [.word .print, .whitespace 1, .literal (.single "1E0".toList), .whitespace 1, .ident (.plain ['E'])] := by
+/-- (former finding, repaired in the code) a second exponent letter ends the numeral in either
+    case, so the line and its listing lex alike -/
+theorem second_exponent_letter_faithful :
+    lex (relist "?1E0e".toList) = lex "?1E0e".toList ∧
+    relist (relist "?1E0e".toList) = relist "?1E0e".toList := by
   decide +kernel
 
-/-- a trailing character that is Unicode white space but not a BASIC blank (here NO-BREAK SPACE; a
-    carriage return behaves the same) becomes an empty `Unknown` token: the line is rejected by the
-    parser, its listing `PRINT` is accepted -/
-theorem trailing_unicode_space_not_faithful :
-    (lex ['?', Char.ofNat 0xA0]).2 = [.word .print, .unknown []] ∧
-    relist ['?', Char.ofNat 0xA0] = "PRINT".toList ∧
-    (lex (relist ['?', Char.ofNat 0xA0])).2 = [.word .print] := by
+example : relist "?1E0e".toList = "PRINT 1E0 E".toList := by decide +kernel
+
+/-- residue of the trailing-white-space finding: `trim_end` looks at the last token only once, so two
+    white-space-only tokens separated by blanks leave one behind, which the listing then loses -/
+theorem separated_unicode_space_not_faithful :
+    (lex ['\r', ' ', Char.ofNat 0x85]).2 = [.unknown ['\r']] ∧
+    (lex (relist ['\r', ' ', Char.ofNat 0x85])).2 = [] := by
   decide +kernel
 
 /-- two comparison operators separated by a blank do not survive listing: `<= <=` is listed as
